@@ -2,7 +2,7 @@
    The OCaml driver (ocaml/modelrun.ml) and the in-Coq cross-check both go through dispatch. *)
 From RcProxy Require Import Base.Bytes Base.Sx Base.Dec Gen.Generated Spec.KeySlot Model.Crc16
   Spec.RespGrammar Spec.SplitSpec Spec.CommandSpec
-  Spec.RouteSpec Model.RespBuf Model.Commands Model.ClientCodec Model.ClientFeed Model.ServerCodec Model.Route.
+  Spec.RouteSpec Model.RespBuf Model.Commands Model.ClientCodec Model.ClientFeed Model.ServerCodec Model.Route Model.AuthIp.
 
 Definition e_hash (a : sx) : sx :=
   match a with SB k => sN (Hash k) | _ => bad end.
@@ -174,6 +174,54 @@ Definition o_route (a : sx) : sx :=
                    else ok
                end
       | _, _ => bad
+      end
+  | _ => bad
+  end.
+
+(* ---- IP whitelist ----
+   input: ((enable (ip ...)) ...) history of loaded versions, then probe addresses "ip:port" *)
+Fixpoint bytes_leb (a b : bytes) : bool :=
+  match a, b with
+  | [], _ => true
+  | _ :: _, [] => false
+  | x :: a', y :: b' => if N.ltb x y then true else if N.ltb y x then false else bytes_leb a' b'
+  end.
+Fixpoint insert_bytes (x : bytes) (l : list bytes) : list bytes :=
+  match l with [] => [x] | y :: r => if bytes_leb x y then x :: l else y :: insert_bytes x r end.
+Definition sort_bytes (l : list bytes) : list bytes := fold_right insert_bytes [] l.
+
+Definition get_version (s : sx) : option (bool * list bytes) :=
+  match s with
+  | SL [SN e; ips] => match get_bl ips with Some l => Some (negb (Z.eqb e 0), l) | None => None end
+  | _ => None
+  end.
+
+Definition e_authip (a : sx) : sx :=
+  match a with
+  | SL [SL versions; probes] =>
+      match map_opt get_version versions, get_bl probes with
+      | Some vs, Some ps =>
+          let m := fold_left parse_auth_ip vs ipmap0 in
+          SL [sbool (im_enable m); SL (map SB (sort_bytes (im_ips m))); SL (map (fun p => sbool (on_c_opened m p)) ps)]
+      | _, _ => bad
+      end
+  | _ => bad
+  end.
+
+(* o_authip: the admitted set must be that of the LAST version *)
+Definition o_authip (a : sx) : sx :=
+  match a with
+  | SL [SL [SL versions; probes]; SL [_; _; SL admitted]] =>
+      match map_opt get_version versions, get_bl probes, get_zl (SL admitted) with
+      | Some vs, Some ps, Some adm =>
+          match rev vs with
+          | [] => ok
+          | (en, listed) :: _ =>
+              let want := map (fun p => (negb en || memb (before_colon p) listed)%bool) ps in
+              if sx_eqb (SL (map sbool want)) (SL (map (fun z => sbool (negb (Z.eqb z 0))) adm)) then ok
+              else viol "admitted-set-differs-from-last-whitelist-version" [SL (map sbool want)]
+          end
+      | _, _, _ => bad
       end
   | _ => bad
   end.
@@ -484,7 +532,9 @@ Definition entries : list (bytes * (sx -> sx)) :=
     (bs "o_merge", o_merge);
     (bs "route", e_route);
     (bs "onsopened", e_onsopened);
-    (bs "o_route", o_route) ].
+    (bs "o_route", o_route);
+    (bs "authip", e_authip);
+    (bs "o_authip", o_authip) ].
 
 Definition dispatch (name : bytes) (a : sx) : sx :=
   match assoc_b name entries with
